@@ -153,12 +153,12 @@ func liveProp(c Case) error {
 		go func() { s.Fini(); close(fin) }()
 		select {
 		case <-fin:
-		case <-time.After(10 * time.Second):
+		case <-pbt.After(10 * time.Second):
 		}
 	}()
 	s.EnableMouse()
 	next := func() (inref.Ev, bool) {
-		deadline := time.Now().Add(5 * time.Second)
+		deadline := time.Now().Add(pbt.Scaled(5 * time.Second))
 		for time.Now().Before(deadline) {
 			if !s.HasPendingEvent() {
 				time.Sleep(50 * time.Microsecond)
